@@ -42,69 +42,6 @@ RULE += (' ' +
          'layout change, then re-encoded (property views excepted); '
          'definition entries with several keys; 31 look-alike texts in every '
          'String field of every (class, version) pair; overlapping '
-         'writes/reads of nine packets incl. cross-version pairs. ')
-RULE += (' ' +
-         'Added in later rounds: every check also on a context object that '
-         "first carried another era's version (@reassigned-context); decoded "
-         'fields are read while the context carries a version across every '
-         'layout change, then re-encoded (property views excepted); '
-         'definition entries with several keys; 31 look-alike texts in every '
-         'String field of every (class, version) pair; overlapping '
-         'writes/reads of nine packets incl. cross-version pairs. Round 11: '
-         'generated packets with nested Enum classes named after fields of '
-         'any type and non-scalar class constants (repr must still work). ')
-RULE += (' ' +
-         'Added in later rounds: every check also on a context object that '
-         "first carried another era's version (@reassigned-context); decoded "
-         'fields are read while the context carries a version across every '
-         'layout change, then re-encoded (property views excepted); '
-         'definition entries with several keys; 31 look-alike texts in every '
-         'String field of every (class, version) pair; overlapping '
-         'writes/reads of nine packets incl. cross-version pairs. Round 11: '
-         'generated packets with nested Enum classes named after fields of '
-         'any type and non-scalar class constants (repr must still work). '
-         'Round 12: layout and id declared on each instance, or a '
-         'class-level prefix the instance extends. ')
-RULE += (' ' +
-         'Added in later rounds: every check also on a context object that '
-         "first carried another era's version (@reassigned-context); decoded "
-         'fields are read while the context carries a version across every '
-         'layout change, then re-encoded (property views excepted); '
-         'definition entries with several keys; 31 look-alike texts in every '
-         'String field of every (class, version) pair; overlapping '
-         'writes/reads of nine packets incl. cross-version pairs. Round 11: '
-         'generated packets with nested Enum classes named after fields of '
-         'any type and non-scalar class constants (repr must still work). '
-         'Round 12: layout and id declared on each instance, or a '
-         'class-level prefix the instance extends. Round 13: fields typed '
-         'with a subclass of a basic wire type are judged by the base type; '
-         'protocol-known channel names and identifiers among the look-alike '
-         'texts. ')
-RULE += (' ' +
-         'Added in later rounds: every check also on a context object that '
-         "first carried another era's version (@reassigned-context); decoded "
-         'fields are read while the context carries a version across every '
-         'layout change, then re-encoded (property views excepted); '
-         'definition entries with several keys; 31 look-alike texts in every '
-         'String field of every (class, version) pair; overlapping '
-         'writes/reads of nine packets incl. cross-version pairs. Round 11: '
-         'generated packets with nested Enum classes named after fields of '
-         'any type and non-scalar class constants (repr must still work). '
-         'Round 12: layout and id declared on each instance, or a '
-         'class-level prefix the instance extends. Round 13: fields typed '
-         'with a subclass of a basic wire type are judged by the base type; '
-         'protocol-known channel names and identifiers among the look-alike '
-         'texts. Round 14: history independence of layouts (canonical '
-         'layouts from a fresh child interpreter, self-contained witness on '
-         'failure); every other NBT value is taken out of a larger pynbt '
-         'document. ')
-RULE += (' ' +
-         'Added in later rounds: every check also on a context object that '
-         "first carried another era's version (@reassigned-context); decoded "
-         'fields are read while the context carries a version across every '
-         'layout change, then re-encoded (property views excepted); '
-         'definition entries with several keys; 31 look-alike texts in every '
-         'String field of every (class, version) pair; overlapping '
          'writes/reads of nine packets incl. cross-version pairs. Round 11: '
          'generated packets with nested Enum classes named after fields of '
          'any type and non-scalar class constants (repr must still work). '
